@@ -245,7 +245,66 @@ def oracle_c07(seq, obs):
     return None
 
 
-ORACLES = {"C09": oracle_c09, "C08": oracle_c08, "C07": oracle_c07}
+def oracle_c14p(seq, obs):
+    """breaker transitions and rejections are reported with attempt 0, sleep 0 and the breaker's state (after the operation);
+    failures carry the class; the metric hook and the log hook receive the same breaker events"""
+    for j, (call, o) in enumerate(zip(seq["calls"], obs)):
+        tr = o["trace"]
+        last_state = None
+        for idx, e in enumerate(tr):
+            if e[0] == "KA":
+                last_state, expect, klass = e[2], e[3], None
+            elif e[0] == "KS":
+                last_state, expect, klass = e[2], e[1], None
+            elif e[0] == "KF":
+                last_state, expect, klass = e[3], e[2], e[1]
+            else:
+                continue
+            want_sinks = [t for t, flag in (("M", call["cfg"]["has_metric"]), ("L", call["cfg"]["has_log"])) if flag]
+            got = tr[idx + 1: idx + 1 + len(want_sinks)] if expect is not None else []
+            if expect is None:
+                nxt = tr[idx + 1] if idx + 1 < len(tr) else None
+                if nxt is not None and nxt[0] in ("M", "L") and isinstance(nxt[4], dict) and "state" in nxt[4]:
+                    return f"call #{j}: breaker event {nxt[1]} reported although the breaker reported no transition"
+                continue
+            if [g[0] for g in got] != want_sinks:
+                return f"call #{j}: breaker event {expect} must reach {want_sinks}, got {[g[:2] for g in got]}"
+            for g in got:
+                tags = g[4]
+                if g[1] != expect or g[2] != 0 or g[3] != 0:
+                    return f"call #{j}: breaker event {expect} reported as {g[1]} attempt={g[2]} sleep={g[3]}"
+                if STATE.get(tags.get("state")) != last_state:
+                    return f"call #{j}: {expect} reported with state tag {tags.get('state')} but the breaker is {last_state}"
+                if (tags.get("class") or None) != klass:
+                    return f"call #{j}: {expect} reported with class tag {tags.get('class')}, expected {klass}"
+    return None
+
+
+def oracle_c11p(seq, obs):
+    """execute() through a Policy (with or without retry component): the outcome is faithful"""
+    for j, (call, o) in enumerate(zip(seq["calls"], obs)):
+        d = o["delivery"]
+        if call["mode"] != "execute" or d[0] != "outcome":
+            continue
+        oc = d[1]
+        inv = [e for e in o["trace"] if e[0] == "I"]
+        if oc["attempts"] != len(inv):
+            return (f"call #{j} ({'no retry component' if seq['policies'][call['policy']].get('no_retry') else 'retry'}): "
+                    f"attempts={oc['attempts']} but the operation was invoked {len(inv)} time(s) (outcome stop_reason={oc['stop']})")
+        ops = call["env"]["ops"]
+        last = ops[len(inv) - 1] if 0 < len(inv) <= len(ops) else None
+        if oc["ok"]:
+            if oc["value"] != len(inv) or any(oc[f] is not None for f in ("stop", "class", "exc", "res", "cause", "next")):
+                return f"call #{j}: successful outcome {oc}"
+        elif last is not None and last[0] in ("R", "O", "N") and oc["stop"] != "ABORTED" and not str(oc["exc"]).startswith("circuit_open:"):
+            if oc["cause"] == "exception" and oc["exc"] != len(inv):
+                return f"call #{j}: last_exception is not the exception raised by the last attempt ({oc['exc']} vs attempt {len(inv)})"
+            if oc["cause"] is None and oc["class"] is None and len(inv) > 0:
+                return f"call #{j}: the operation was invoked and failed but the outcome describes no failure: {oc}"
+    return None
+
+
+ORACLES = {"C09": oracle_c09, "C08": oracle_c08, "C07": oracle_c07, "C14P": oracle_c14p, "C11P": oracle_c11p}
 
 
 # ------------------------------------------------------------------------------------------------
